@@ -34,6 +34,19 @@ def fresh_fun(prefix, *sorts):
     return z3.Function(f"{prefix}!{next(_fresh)}", *sorts)
 
 
+# Python floor division / remainder by a *symbolic* positive divisor: uninterpreted functions with
+# the defining axiom  y > 0  =>  x = quo(x,y)*y + rem(x,y)  and  0 <= rem(x,y) < y   (explicit
+# quotient encoding; z3's own mod does not reason about a symbolic modulus)
+QUO = z3.Function("py_quo", z3.IntSort(), z3.IntSort(), z3.IntSort())
+REM = z3.Function("py_rem", z3.IntSort(), z3.IntSort(), z3.IntSort())
+
+
+def divmod_axiom():
+    x, y = z3.Ints("dm_x dm_y")
+    body = z3.Implies(y > 0, z3.And(x == QUO(x, y) * y + REM(x, y), REM(x, y) >= 0, REM(x, y) < y))
+    return z3.ForAll([x, y], body, patterns=[REM(x, y), QUO(x, y)])
+
+
 class Unsupported(Exception):
     """Construct outside the verified subset: the obligations of the function are
     reported *undecided*, never approximated."""
